@@ -160,6 +160,25 @@ def zoo(rnd):
     for vc in coll.variant_collections[:1]:
         out.append(("vcollection", vc))
         out.append(("variant", vc.variant_intervals[0]))
+    # a coding transcript (and its gene) on a chunk that holds one of its exons but NOT ONE base of its CDS, and one on a
+    # chunk that cuts its CDS: what is exported is the chromosome structure, whatever the chunk shows of it
+    try:
+        from bcverif import encode as E
+        from bcverif.props.c06 import mk_tx
+        from inscripta.biocantor.gene.gene import GeneInterval
+
+        root = "".join(rnd.choice("ACGT") for _ in range(80))
+        a = rnd.randrange(3, 10)
+        ex = [[a, a + rnd.randrange(6, 12)], [30 + rnd.randrange(0, 5), 60 + rnd.randrange(0, 8)]]
+        cds = [[ex[1][0] + rnd.randrange(1, 4), ex[1][0] + 4 + 3 * rnd.randrange(2, 6)]]
+        st = rnd.choice("+-")
+        for win in ((0, ex[0][1] + rnd.randrange(1, 6)), (0, cds[0][0] + rnd.randrange(1, 5))):
+            cp = E.chunk_parent(root, win[0], win[1])
+            tx = mk_tx(ex, st, cds, None, parent=cp, transcript_id="tx_off", protein_id="p_off", sequence_name="chr")
+            out.append(("transcript", tx))
+            out.append(("gene", GeneInterval([tx], gene_id="g_off", sequence_name="chr", parent_or_seq_chunk_parent=cp)))
+    except ImportError:
+        raise
     # the same kinds again with qualifiers (rebuilt from dictionaries with qualifiers injected)
     K = kinds()
     extra = []
